@@ -205,7 +205,10 @@ def _cls(content: bytes) -> str:
 # code -> spec driver
 # ------------------------------------------------------------------------------------------------------------------
 def _rand_int(rnd: random.Random) -> int:
-    k = rnd.randrange(8)
+    k = rnd.randrange(9)
+    if k == 8:  # content octets on both sides of the short / long length form (127, 128, 129, 255, 256 octets)
+        e = rnd.choice((1007, 1015, 1016, 1023, 1024, 2039, 2040, 2047, 2048))
+        return rnd.choice((1, -1)) * (2**e + rnd.choice((-1, 0, 1, rnd.getrandbits(64))))
     if k == 0:
         return rnd.randrange(-70000, 70001)
     if k == 1:
@@ -336,7 +339,19 @@ def drive(rnd: random.Random, n: int) -> t.List[t.Dict[str, t.Any]]:
                 for _again in range(rnd.choice((1, 1, 2, 3))):
                     w = ASN1Writer()
                     w.write_octet_string(arg)
-                    ev.append({"op": "woct", "val": L(val), "out": L(bytes(w.get_data()))})
+                    if kind in (1, 2) and rnd.random() < 0.5:
+                        # the caller reuses its buffer as soon as the call has returned: what was written is what the
+                        # argument held AT THE CALL
+                        keep = bytes(arg)
+                        if rnd.random() < 0.5:
+                            arg[:] = bytes(len(arg))
+                        else:
+                            arg.extend(b"reused")
+                        out_ = bytes(w.get_data())
+                        arg[:] = keep
+                    else:
+                        out_ = bytes(w.get_data())
+                    ev.append({"op": "woct", "val": L(val), "out": L(out_)})
             elif op == "roct":
                 val = bytes(rnd.randrange(256) for _ in range(rnd.choice((0, 1, 127, 128, 255, 256, rnd.randrange(0, 400)))))
                 lenform = rnd.randrange(3)
@@ -442,7 +457,7 @@ def run(tier: str, seed: int) -> int:
         events = drive(rnd, n)
         for e in events:
             rep.case((e["op"], str(e)[:200]))
-        verdicts, gen, dist = C.validate_traces("BerTrace", "BerTrace.cfg", events, wd, tag="bertrace")
+        verdicts, gen, dist = C.validate_traces("BerTrace", "BerTrace.cfg", events, wd, tag="bertrace", xss="512m")
         rep.states += dist
         rep.transitions += gen
         rep.traces += len(events)
